@@ -282,11 +282,24 @@ class CheckContext:
         for r in self.records:
             if r.verdict == "proved":
                 continue
-            if r.verdict in ("unknown", "error", None):
-                undecided.append(r)
-                continue
-            # refuted
             native = getattr(r, "native", None)
+            if r.verdict in ("unknown", "error", None):
+                # the solver did not decide the obligation: it stays undecided UNLESS its run-time replay (seeded search over the obligation's own
+                # input family on the real code) exhibits a failing input — that is a violation shown on the real code, not a verdict inferred from a timeout
+                found = None
+                if r.replay is not None and r.verdict == "unknown":
+                    try:
+                        found = r.replay({})
+                    except Exception:  # noqa
+                        found = None
+                if not (found and found.get("reproduced")):
+                    undecided.append(r)
+                    continue
+                native = found
+                r.why = f"solver: {r.why or 'undecided'}; failing input found by the obligation's run-time replay on the real code"
+                r.backend = (r.backend or "") + "+native-replay"
+                r.verdict = "refuted"
+            # refuted
             if native is None and r.replay is not None:
                 try:
                     native = r.replay({k: solve.parse_model_value(v) for k, v in (r.model or {}).items()})
@@ -318,6 +331,10 @@ class CheckContext:
             lines.append(f"UNDECIDED property={self.prop} obligation={r.ident} reason={r.why[:160]}")
         if self.checker_errors and exit_code == 0:
             exit_code = 3
+        for e_ in self.checker_errors[:6]:
+            last = [l_ for l_ in str(e_).strip().splitlines() if l_.strip()][-1][:300]
+            lines.append(f"CHECKER-ERROR property={self.prop} {last}")
+            self.notes.append("checker error: " + last)
         counted = [r for r in self.records if r.tag in ("P", "G", "F", "L")]
         if not counted and exit_code == 0:
             lines.append(f"CHECKER-ERROR property={self.prop} zero obligations generated")
